@@ -69,7 +69,7 @@ let engine_line spec l =
   end
 
 (* diag case := grouping excl ntest {file}* nranges {file from to}* nconf {id file line col off nnil {node}* nnon {node}*}*
-   node := ppvalid pfile pline pcol cpvalid cfile cline ccol prepr crepr *)
+   node := ppvalid pfile pline pcol cpvalid cfile cline ccol prepr crepr sitevalid sitefile siteline sitecol ; a conflict ends with srcvalid srcfile srcline srccol *)
 let diag_line l =
   let a = Array.of_list (ints_of_line l) in
   let pos = ref 0 in
@@ -86,14 +86,16 @@ let diag_line l =
   let read_nodes () =
     let n = next () in
     List.init n (fun _ -> let pp = read_pos () in let cp = read_pos () in let pr = next () in let cr = next () in
-      { n_ppos = pp; n_cpos = cp; n_prepr = nat_of_int pr; n_crepr = nat_of_int cr }) in
+      let st = read_pos () in
+      { n_ppos = pp; n_cpos = cp; n_prepr = nat_of_int pr; n_crepr = nat_of_int cr; n_site = st }) in
   let nc = next () in
   let cs = List.init nc (fun _ ->
     let id = next () in let f = next () in let l = next () in let c = next () in let off = next () in
     let nil = read_nodes () in let non = read_nodes () in
+    let src = read_pos () in
     { c_id = nat_of_int id;
       c_pos = { p_file = nat_of_int f; p_line = nat_of_int l; p_col = nat_of_int c; p_off = nat_of_int off; p_valid = true };
-      c_nil = nil; c_nonnil = non; c_func = None; c_test = false }) in
+      c_nil = nil; c_nonnil = non; c_func = None; c_test = false; c_src = src }) in
   let ds = diagnostics_tf grouping ranges excl tf cs in
   let place = function
     | None -> "-"
